@@ -250,6 +250,17 @@ func (x *c19) enter(ci ssa.CallInstruction, fr *c19Frame) []*c19Frame {
 	}
 	cc := ci.Common()
 	if cc.IsInvoke() {
+		// a single-implementation seam: an unexported interface of the package
+		// implemented by exactly one of its types
+		if m := x.soleImplementation(cc.Value.Type(), cc.Method); m != nil {
+			f := &c19Frame{call: ci, parent: fr, fn: m}
+			f.args = append([]ssa.Value{cc.Value}, cc.Args...)
+			f.argFr = make([]*c19Frame, len(f.args))
+			for i := range f.argFr {
+				f.argFr[i] = fr
+			}
+			return []*c19Frame{f}
+		}
 		return nil
 	}
 	if sc := staticCallee(ci); sc != nil && x.boundMethod(sc) == nil {
@@ -605,6 +616,12 @@ func (x *c19) derive(v ssa.Value, fr *c19Frame, visit func(o c19Origin)) {
 					if mu, ok := rr.(*ssa.MapUpdate); ok && mu.Map == o.v {
 						rec(mu.Value, o.fr, depth+1)
 					}
+					// maps.Copy(dst, src) / maps.Insert(dst, seq): dst also holds what src holds
+					if call, ok := rr.(*ssa.Call); ok && len(call.Call.Args) == 2 && call.Call.Args[0] == o.v {
+						if obj := calleeObj(call); obj != nil && obj.Pkg() != nil && obj.Pkg().Path() == "maps" && (obj.Name() == "Copy" || obj.Name() == "Insert") {
+							rec(call.Call.Args[1], o.fr, depth+1)
+						}
+					}
 				}
 			}
 		}
@@ -630,6 +647,8 @@ type c19KeySources struct {
 	unknown []string // key material of unresolved provenance
 	reqs    map[string]c19Origin
 	anchors bool
+	entries int      // map entries seen on the way
+	opaque  []string // byte / map contents of unresolved provenance
 }
 
 func (x *c19) sourcesOf(v ssa.Value, fr *c19Frame) *c19KeySources {
@@ -659,9 +678,23 @@ func (x *c19) sourcesOf(v ssa.Value, fr *c19Frame) *c19KeySources {
 			if c19Keyish(o.v.Type()) {
 				ks.foreign = append(ks.foreign, o.kind+" "+o.desc)
 			}
+			if c19IsContent(o.v.Type()) {
+				ks.opaque = append(ks.opaque, o.kind+" "+o.desc)
+			}
 		case "param", "unknown":
 			if c19Keyish(o.v.Type()) {
 				ks.unknown = append(ks.unknown, o.desc)
+			}
+			if c19IsContent(o.v.Type()) {
+				ks.opaque = append(ks.opaque, o.desc)
+			}
+		case "make":
+			if mm, ok := o.v.(*ssa.MakeMap); ok {
+				for _, rr := range refs(mm) {
+					if mu, ok := rr.(*ssa.MapUpdate); ok && mu.Map == ssa.Value(mm) {
+						ks.entries++
+					}
+				}
 			}
 		}
 	})
@@ -945,57 +978,28 @@ func (x *c19) checkX4() {
 		default:
 			wr := writes[0]
 			args := wr.in.(ssa.CallInstruction).Common().Args
-			var mm *ssa.MakeMap
-			okMap := true
-			for _, o := range x.origins(args[len(args)-1], wr.fr) {
-				if m, ok := o.v.(*ssa.MakeMap); ok && o.kind == "make" && (mm == nil || mm == m) {
-					mm = m
-				} else if o.kind != "nil" {
-					okMap = false
-				}
-			}
-			if mm == nil || !okMap {
-				r.OK("C19.X4-fresh-key", construct, x.pos(wr.in), "one dir.Write call")
-				x.undecide("%s: the file map handed to dir.Write is not a single map built in this fetch: its entries are not decided", name)
-				break
-			}
-			// the frame of the map: where the MakeMap sits
-			var mfr *c19Frame
-			for _, o := range x.origins(args[len(args)-1], wr.fr) {
-				if o.v == ssa.Value(mm) {
-					mfr = o.fr
-				}
-			}
-			hasKey, hasChain, hasAnch := false, false, false
+			// everything the file map handed to Write is built from (map literals,
+			// maps filled in loops / by maps.Copy, maps.Clone, helper results)
+			ks := x.sourcesOf(args[len(args)-1], wr.fr)
+			hasKey, hasChain, hasAnch := false, len(ks.reqs) > 0, ks.anchors
 			var badW []string
-			n := 0
-			for _, rr := range refs(mm) {
-				mu, ok := rr.(*ssa.MapUpdate)
-				if !ok || mu.Map != ssa.Value(mm) {
-					continue
-				}
-				n++
-				ks := x.sourcesOf(mu.Value, mfr)
-				for _, f := range ks.foreign {
-					badW = append(badW, "a file is built from key material of "+f)
-				}
-				for gk := range ks.gens {
-					if K != "" && gk != K {
-						badW = append(badW, "the key file is encoded from a different key than the one in the CSR/SVID: certificate and published key can disagree")
-					} else {
-						hasKey = true
-					}
-				}
-				if len(ks.reqs) > 0 {
-					hasChain = true
-				}
-				if ks.anchors {
-					hasAnch = true
+			n := ks.entries
+			for _, f := range ks.foreign {
+				badW = append(badW, "a file is built from key material of "+f)
+			}
+			for gk := range ks.gens {
+				if K != "" && gk != K {
+					badW = append(badW, "the key file is encoded from a different key than the one in the CSR/SVID: certificate and published key can disagree")
+				} else {
+					hasKey = true
 				}
 			}
 			switch {
 			case len(badW) > 0:
 				r.Violation("C19.X4-fresh-key", construct, x.pos(wr.in), strings.Join(c19Dedup(badW), "; "))
+			case (!hasKey || !hasChain || !hasAnch) && len(ks.opaque) > 0:
+				r.OK("C19.X4-fresh-key", construct, x.pos(wr.in), "one dir.Write call")
+				x.undecide("%s: part of the file map handed to dir.Write has unresolved contents (%s): whether key, chain and trust anchors are one file set is not decided", name, strings.Join(c19Dedup(ks.opaque), ", "))
 			case !hasKey || !hasChain || !hasAnch:
 				miss := []string{}
 				if !hasKey {
@@ -1042,7 +1046,7 @@ func (x *c19) chanFieldFr(v ssa.Value, fr *c19Frame) (string, bool) {
 		if o.kind != "field" {
 			return "", false
 		}
-		id := "field:" + o.fid.Type + "." + o.fid.Field
+		id := x.fieldAlias("field:"+o.fid.Type+"."+o.fid.Field, 0)
 		if first == "" {
 			first = id
 		} else if first != id {
@@ -1146,4 +1150,66 @@ func c19CellStores(cell *ssa.Alloc) []*ssa.Store {
 	}
 	via(cell, 0)
 	return out
+}
+
+// soleImplementation: iface is an unexported interface type declared in the
+// package and exactly one named type of the package implements it; returns
+// that type's method m.
+func (x *c19) soleImplementation(t types.Type, m *types.Func) *ssa.Function {
+	n, ok := types.Unalias(t).(*types.Named)
+	if !ok || n.Obj().Pkg() == nil || n.Obj().Pkg().Path() != x.pkg || n.Obj().Exported() || m == nil {
+		return nil
+	}
+	iface, ok := n.Underlying().(*types.Interface)
+	if !ok {
+		return nil
+	}
+	key := n.Obj().Name() + "." + m.Name()
+	if f, ok := x.seamMemo[key]; ok {
+		return f
+	}
+	var found []*ssa.Function
+	scope := n.Obj().Pkg().Scope()
+	names := scope.Names()
+	sort.Strings(names)
+	for _, name := range names {
+		tn, ok := scope.Lookup(name).(*types.TypeName)
+		if !ok || tn.IsAlias() {
+			continue
+		}
+		if _, isIface := tn.Type().Underlying().(*types.Interface); isIface {
+			continue
+		}
+		for _, cand := range []types.Type{tn.Type(), types.NewPointer(tn.Type())} {
+			if !types.Implements(cand, iface) {
+				continue
+			}
+			obj, _, _ := types.LookupFieldOrMethod(cand, true, n.Obj().Pkg(), m.Name())
+			if fo, ok := obj.(*types.Func); ok {
+				if f := x.p.SSA.FuncValue(fo); f != nil && x.inPkg[origin(f)] {
+					found = append(found, origin(f))
+				}
+			}
+			break
+		}
+	}
+	var out *ssa.Function
+	if len(found) == 1 {
+		out = found[0]
+	}
+	x.seamMemo[key] = out
+	return out
+}
+
+// c19IsContent: a type that carries file contents (bytes, or a map of them).
+func c19IsContent(t types.Type) bool {
+	switch u := t.Underlying().(type) {
+	case *types.Slice:
+		return types.Identical(u.Elem(), types.Typ[types.Byte])
+	case *types.Map:
+		return c19IsContent(u.Elem())
+	case *types.Pointer:
+		return c19IsContent(u.Elem())
+	}
+	return false
 }
